@@ -1067,6 +1067,46 @@ func (st *State) specCall(e *SExpr, env *specEnv) Value {
 				r = app("s_ref", x.Term)
 			}
 			return Value{T: boolT, S: SBool, Term: and(not(eq(r, nilRef)), app(">=", rootID(r), env.topOld))}
+		case "abytes":
+			// abytes(a, lo, hi): the bytes a[lo:hi] of a byte-array VALUE (a field of array type)
+			if len(args) != 3 {
+				env.fail("abytes takes an array value and two bounds")
+			}
+			x := st.evalSpec(args[0], env)
+			if x.S != ArrSort(BV(64), BV(8)) {
+				env.fail("abytes(%s, ..): not a byte array value", args[0])
+			}
+			lo := st.coerceTo(st.widenIndex(st.evalSpec(args[1], env)), BV(64), env)
+			hi := st.coerceTo(st.widenIndex(st.evalSpec(args[2], env)), BV(64), env)
+			return Value{S: SBytes, Term: app("bseq", x.Term, lo.Term, app("bvsub", hi.Term, lo.Term))}
+		case "bsplit":
+			// bsplit(s, k): a reminder of a fact of the byte model, bytes(s) == cat(bytes(s[:k]), bytes(s[k:]))
+			// for 0 <= k <= len(s); it is added to the hypotheses and the expression itself is true
+			if len(args) != 2 {
+				env.fail("bsplit takes a byte slice and a split point")
+			}
+			x := st.evalSpec(args[0], env)
+			if x.S != SSlice {
+				env.fail("bsplit(%s, ..): not a slice", args[0])
+			}
+			k := st.coerceTo(st.widenIndex(st.evalSpec(args[1], env)), BV(64), env)
+			a := app("select", st.elemsArr(env.heap, BV(8)), app("s_ref", x.Term))
+			off, ln := app("s_off", x.Term), app("s_len", x.Term)
+			fact := imp(and(app("bvsle", bvInt(0, 64), k.Term), app("bvsle", k.Term, ln)),
+				eq(app("bseq", a, off, ln), app("cat", app("bseq", a, off, k.Term), app("bseq", a, app("bvadd", off, k.Term), app("bvsub", ln, k.Term)))))
+			if env.facts != nil {
+				*env.facts = append(*env.facts, fact)
+			}
+			st.res.Assumed["byte model: a byte range is the concatenation of its two parts (instances named by bsplit in the contracts)"] = true
+			return Value{T: boolT, S: SBool, Term: "true"}
+		case "allocated":
+			// allocated(x): x is nil or an object that exists by now (so that a later allocation cannot alias it)
+			x := st.evalSpec(args[0], env)
+			r := x.Term
+			if x.S == SSlice {
+				r = app("s_ref", x.Term)
+			}
+			return Value{T: boolT, S: SBool, Term: app("<", rootID(r), st.allocTop)}
 		case "istype":
 			x := st.evalSpec(args[0], env)
 			T, _ := st.resolveSpecType(args[1].String(), env)
@@ -1127,6 +1167,18 @@ func (st *State) specCall(e *SExpr, env *specEnv) Value {
 				return Value{T: boolT, S: SBool, Term: eq(app("i_tag", x.Term), "0")}
 			}
 			return Value{T: boolT, S: SBool, Term: eq(x.Term, nilRef)}
+		case "asptr":
+			// asptr(r, *T): the untyped reference r (an element of a ghost array) viewed as a *T
+			if len(args) != 2 {
+				env.fail("asptr takes a reference and a pointer type")
+			}
+			x := st.evalSpec(args[0], env)
+			T, s := st.resolveSpecType(args[1].String(), env)
+			// (also a slice value of a ghost array viewed as a []T)
+			if s != x.S || (s != SRef && s != SSlice) {
+				env.fail("asptr(%s, %s): the value is a %s", args[0], args[1], x.S)
+			}
+			return Value{T: T, S: s, Term: x.Term}
 		case "dyn":
 			// dyn(i, *T): the dynamic value of interface i viewed as type *T (pointer-like)
 			x := st.evalSpec(args[0], env)
